@@ -56,8 +56,9 @@ def handle (op : String) (j : Json) : Option (Except String Json) :=
     .ok (ofExcept J.ofOp (rotateQubitByPauli tol Q P (← J.gq (← J.field j "c2")) (← J.gq (← J.field j "s2"))))
   | "c16.freeze" => some do
     let A ← J.op (← J.field j "A")
-    .ok (J.ofOp (freezeOrbitals tol A (← J.natList (← J.field j "occupied"))
-      (← J.natList (← J.field j "unoccupied")) (← J.bool (← J.field j "prune"))))
+    let r := freezeOrbitalsX tol A (← J.natList (← J.field j "occupied"))
+      (← J.natList (← J.field j "unoccupied")) (← J.bool (← J.field j "prune"))
+    .ok (J.obj [("op", J.ofOp r.1), ("exact", Json.bool r.2)])
   | "c16.prune" => some do
     .ok (J.ofOp (pruneUnusedIndices (← J.op (← J.field j "A"))))
   | "c16.edit" => some do
